@@ -485,7 +485,14 @@ def r02_5_emission_coverage(ctx: Ctx, rule: str = "R02.5") -> None:
                 seen.add(inst)
                 run.fail(rule, inst, f"the emitted SELECT does not depend on {what}", fi=f, node=p.node, details=describe(p, 14))
         facts = path_facts(p)
-        wheres = [c for _, c in path_calls(p) if call_attr(c) == "where"]
+        wheres = []
+        for j_, c_ in path_calls(p):
+            if call_attr(c_) != "where":
+                continue
+            # the clause under the local it was given (`where_clause = terms[0]` ... `.where(where_clause)`)
+            if c_.args and isinstance(c_.args[0], ast.Name) and isinstance(env_at(p, j_).get(c_.args[0].id), ast.expr):
+                c_ = ast.copy_location(ast.Call(func=c_.func, args=[env_at(p, j_)[c_.args[0].id]] + list(c_.args[1:]), keywords=c_.keywords), c_)
+            wheres.append(c_)
         # the term list under any local name it was given (`terms = payload.where`)
         wnames = {f"{pay}.where"} | {nm for nm, b in env_at(p).items() if isinstance(b, ast.Attribute) and src(b) == f"{pay}.where"}
         one = any(fct.kind == "EQ" and fct.polarity and "1" in fct.args and any(f"len({w})" in fct.args for w in wnames) for fct in facts)
